@@ -16,7 +16,7 @@ VOLNOTE = "Trusted: the reference map, tmpfs/ext4 semantics of the scratch direc
 CLAIMED.update({
  "C01": dict(engine="volsim", design="§6 C01",
    technique=TECH + "write-fault injection (EIO, ENOSPC, short write, failed sync/truncate) through the Volume.DataBackend seam, clean restarts, reference map oracle relaxed per faulted operation only",
-   text="Seeded histories of uploads (incl. identical rewrites, empty payloads, batched fsync path), deletes, reads, read-only toggles and clean restarts on the real Store/Volume, checked operation by operation against a reference map (data, name, mime, pairs, last-modified, compression, TTL). Separate fault-free and fault-injecting configurations; after a faulted operation the key may hold the old or the new value, never a third. The cookie clause (wrong-cookie read/delete) lives in the HTTP handlers and is not decided by this check.",
+   text="Seeded histories of uploads (incl. identical rewrites, empty payloads, batched fsync path), deletes, reads, read-only toggles and clean restarts on the real Store/Volume, checked operation by operation against a reference map (data, name, mime, pairs, last-modified, compression, TTL). Separate fault-free and fault-injecting configurations; after a faulted operation the key may hold the old or the new value, never a third. The cookie clause is decided where the code implements it: uploads with another cookie go to the Store and must be refused leaving the blob untouched; GET and DELETE presenting another cookie go through the real volume-server HTTP handler and must return no data / remove nothing.",
    note=VOLNOTE),
  "C02": dict(engine="volsim", design="§6 C02",
    technique=TECH + "silent-corruption injection (single bit flips in stored data bytes) and record-by-record scans checked against the append log",
